@@ -169,3 +169,13 @@ Definition restriction_obsolete (k : gkind) : bool :=
   | None => false
   end.
 Definition obsolete_restrictions : list pystr := map k_label (filter restriction_obsolete kinds_restricted).
+
+(* ---------------------------------------------------------------- constructor-only stream *)
+(* a field that the deserializer's own validation accepted and the constructor then rejected, by the
+   raise statement that rejected it: the statement must be one of Collect.ctor_only_sites *)
+Definition ctor_only_unlisted (tid : N) : bool :=
+  match template_by_id tid with
+  | Some t => negb (is_ctor_only_site t)
+  | None => true
+  end.
+
